@@ -861,6 +861,21 @@ impl Interp {
                     }
                 }
                 if let Some(top) = top {
+                    // "all earlier entries are identical too": below the matching entry neither log may have a hole
+                    // (indexes below a node's first stored entry are compacted, not missing)
+                    let lo = la.keys().next().copied().unwrap_or(0).max(lb.keys().next().copied().unwrap_or(0));
+                    for i in lo..=top {
+                        for (who, l) in [(a, la), (b, lb)] {
+                            if !l.contains_key(&i) {
+                                self.res.checkpoint_violations.push((
+                                    "C04".into(),
+                                    "C04:entry-missing-below-matching-entry".into(),
+                                    format!("t={}ms nodes {a},{b} agree on (index {top}) but node {who} has no entry at index {i} although its log starts at or below it", self.w.now_ms()),
+                                ));
+                                return;
+                            }
+                        }
+                    }
                     for (i, (t, p)) in la.range(..=top) {
                         if let Some((tb, pb)) = lb.get(i) {
                             if t != tb || p != pb {
